@@ -68,6 +68,12 @@ func (r *regexAST) String() string {
 	}
 	return strings.Join(res, "")
 }
+// isNonCapturing says whether the content of a plain "(" ... ")" starts with "?", i.e. the
+// group is a non-capturing or flag group (named groups are lexed as "(?P<" and never get here).
+func (r *regexAST) isNonCapturing() bool {
+	return r != nil && len(r.RegexPart) > 0 && strings.HasPrefix(r.RegexPart[0].SimplePart, "?")
+}
+
 func (r *regexAST) collectGroupNames(init []string) []string {
 	for _, p := range r.RegexPart {
 		init = p.collectGroupNames(init)
@@ -95,7 +101,11 @@ func (r *regexPart) collectGroupNames(init []string) []string {
 		return r.NamedBrackPart.collectGroupNames(init)
 	}
 	if r.BrackPart != nil {
-		init = append(init, "")
+		// "(?:...)", "(?i)", "(?i:...)" open with "(?" but capture nothing: RE2 does not
+		// number them, so they must not take a slot in the list of group names
+		if !r.BrackPart.isNonCapturing() {
+			init = append(init, "")
+		}
 		return r.BrackPart.collectGroupNames(init)
 	}
 	return init
